@@ -55,7 +55,11 @@ func payloadEq(a, b interface{}) bool {
 			return false
 		}
 		for i := range x {
-			if x[i] != y[i] {
+			if x[i] == y[i] {
+				continue
+			}
+			// (the same element object, or an equal value where lists are copied deeply)
+			if x[i] == nil || y[i] == nil || x[i].Type() != y[i].Type() || !payloadEq(x[i].AsObject(), y[i].AsObject()) {
 				return false
 			}
 		}
